@@ -25,3 +25,6 @@ func IDs() []string {
 
 	return out
 }
+
+// Commands are extra sub-commands of the monitor binary contributed by property files (child-process entry points).
+var Commands = map[string]func(args []string) int{}
